@@ -154,8 +154,8 @@ Theorem C16_merge_output :
     forall d rest,
       flat_map (src_docs estr) srcs ++ (if stdin_waits_m a tty srcs then src_docs estr stdin_src else []) = d :: rest ->
       let m := fold_merge merge2 d rest in
-      r_status (merge_main merge2 flow jview estr a tty srcs stdin_src) = Exit 0 /\
-      delivered (merge_main merge2 flow jview estr a tty srcs stdin_src) =
+      r_status (cli_merge_main merge2 flow jview estr a tty srcs stdin_src) = Exit 0 /\
+      delivered (cli_merge_main merge2 flow jview estr a tty srcs stdin_src) =
         [(doc_is_json flow a m, [prepared flow jview a (prepared flow jview a m)])].
 Proof. exact merge_output_condense. Qed.
 Print Assumptions C16_merge_output.
@@ -164,8 +164,8 @@ Print Assumptions C16_merge_output.
    11-14 / 31-32 / 41-42, an escaping exception) delivers no document at all *)
 Theorem C16_merge_error_no_output :
   forall merge2 flow jview estr a tty srcs stdin_src,
-    r_status (merge_main merge2 flow jview estr a tty srcs stdin_src) <> Exit 0 ->
-    delivered (merge_main merge2 flow jview estr a tty srcs stdin_src) = [].
+    r_status (cli_merge_main merge2 flow jview estr a tty srcs stdin_src) <> Exit 0 ->
+    delivered (cli_merge_main merge2 flow jview estr a tty srcs stdin_src) = [].
 Proof. exact merge_fail_delivers_nothing. Qed.
 Print Assumptions C16_merge_error_no_output.
 
@@ -173,7 +173,7 @@ Definition ex_merge2 (l r : nat) : option ufam * nat := (None, 10 * l + r).
 Definition ex_args_merge :=
   mkmerge true (mknoise false false false) false false "" false "" false false FAuto CondenseAll "".
 Example C16_merge_example :
-  merge_main ex_merge2 (fun _ => false) (fun d => d) 9 ex_args_merge true
+  cli_merge_main ex_merge2 (fun _ => false) (fun d => d) 9 ex_args_merge true
     [ex_src "a.yaml" [1; 2]; ex_src "b.yaml" [3]] (ex_src "-" []) =
   mkrun (Exit 0) [ODump false [123]] [].
 Proof. vm_compute. reflexivity. Qed.
@@ -181,13 +181,13 @@ Example C16_merge_example_clean : merges_clean ex_merge2.
 Proof. intros l r. reflexivity. Qed.
 Example C16_merge_example_error :
   (* the second step raises MergeException: status 13, nothing delivered *)
-  merge_main (fun l r => if Nat.eqb r 3 then (Some UMerge, l) else (None, 10 * l + r)) (fun _ => false) (fun d => d)
+  cli_merge_main (fun l r => if Nat.eqb r 3 then (Some UMerge, l) else (None, 10 * l + r)) (fun _ => false) (fun d => d)
     9 ex_args_merge true [ex_src "a.yaml" [1]; ex_src "b.yaml" [2; 3]] (ex_src "-" []) =
   mkrun (Exit 13) [OHint] [].
 Proof. vm_compute. reflexivity. Qed.
 Example C16_merge_example_stdin_only :
   (* the repaired case: no YAML_FILE, a waiting STDIN supplies the documents *)
-  merge_main ex_merge2 (fun _ => false) (fun d => d) 9
+  cli_merge_main ex_merge2 (fun _ => false) (fun d => d) 9
     (mkmerge false (mknoise false false false) false false "" false "" false false FAuto CondenseAll "")
     false [] (ex_src "-" [4; 5]) =
   mkrun (Exit 0) [ODump false [45]] [].
@@ -203,13 +203,13 @@ Proof. vm_compute. reflexivity. Qed.
    exist (1), a library error, an unreadable file - delivers nothing *)
 Theorem C16_set_file :
   forall built saveto change flow a tty valfile_ok load gather,
-    (r_status (set_main built saveto change flow a tty valfile_ok load gather) = Exit 0 /\
+    (r_status (cli_set_main built saveto change flow a tty valfile_ok load gather) = Exit 0 /\
      exists d0 j,
        (get_yaml_data load = L1Ok (Some d0) \/ (get_yaml_data load = L1Ok None /\ built = LOk d0)) /\
-       delivered (set_main built saveto change flow a tty valfile_ok load gather) =
+       delivered (cli_set_main built saveto change flow a tty valfile_ok load gather) =
          [(j, [set_post a saveto change d0])]) \/
-    (r_status (set_main built saveto change flow a tty valfile_ok load gather) <> Exit 0 /\
-     delivered (set_main built saveto change flow a tty valfile_ok load gather) = []).
+    (r_status (cli_set_main built saveto change flow a tty valfile_ok load gather) <> Exit 0 /\
+     delivered (cli_set_main built saveto change flow a tty valfile_ok load gather) = []).
 Proof. exact set_file. Qed.
 Print Assumptions C16_set_file.
 
@@ -224,17 +224,17 @@ Definition ex_args_set (check saveto mustexist : bool) :=
   mkset "doc.yaml" false (mknoise false false false) (Some "new") false false false false None false false ""
         false check saveto false mustexist true false false false false false 62 false.
 Example C16_set_example :
-  set_main (LRaise UYpe) (fun d => LOk (d + 100)) (fun d => ChOk (d + 1)) (fun _ => false)
+  cli_set_main (LRaise UYpe) (fun d => LOk (d + 100)) (fun d => ChOk (d + 1)) (fun _ => false)
     (ex_args_set true true false) true false (R1Doc (Some 5)) (LOk [mksn false (LOk false) true]) =
   mkrun (Exit 0) [] [EBackup; EWrite false [106]].
 Proof. vm_compute. reflexivity. Qed.
 Example C16_set_example_check_fails :
-  set_main (LRaise UYpe) (fun d => LOk (d + 100)) (fun d => ChOk (d + 1)) (fun _ => false)
+  cli_set_main (LRaise UYpe) (fun d => LOk (d + 100)) (fun d => ChOk (d + 1)) (fun _ => false)
     (ex_args_set true false false) true false (R1Doc (Some 5)) (LOk [mksn false (LOk false) false]) =
   mkrun (Exit 20) [] [].
 Proof. vm_compute. reflexivity. Qed.
 Example C16_set_example_unmatched :
-  set_main (LRaise UYpe) (fun d => LOk d) (fun d => ChOk (d + 1)) (fun _ => false)
+  cli_set_main (LRaise UYpe) (fun d => LOk d) (fun d => ChOk (d + 1)) (fun _ => false)
     (ex_args_set false false true) true false (R1Doc (Some 5)) (LRaise UYpe) =
   mkrun (Exit 1) [] [].
 Proof. vm_compute. reflexivity. Qed.
